@@ -14,6 +14,7 @@ Record observed := {
   o_accs : list (Z * option (Z * Z * Z));   (* address, None | Some (unibi, nonce, code id) *)
   o_stor : list (Z * Z * Z);                (* address, slot, value *)
   o_logs : Z; o_refund : Z;
+  o_leak : Z;                               (* unibi supply change not accounted for by the observed accounts *)
   o_al : list (Z * bool); o_als : list (Z * Z * bool);
   o_views : list obs                        (* in execution order *)
 }.
@@ -32,7 +33,7 @@ Definition acct_of (t : store) (a : addr) : option (Z * Z * Z) :=
 Definition final_matches (t : store) (x : aux_t) (o : observed) : bool :=
   forallb (fun p => acct_eqb (acct_of t (fst p)) (snd p)) (o_accs o) &&
   forallb (fun p => stor t (fst (fst p)) (snd (fst p)) =? snd p) (o_stor o) &&
-  (logs x =? o_logs o) && (refund x =? o_refund o) &&
+  (logs x =? o_logs o) && (refund x =? o_refund o) && (o_leak o =? 0) &&
   forallb (fun p => Bool.eqb (al x (fst p)) (snd p)) (o_al o) &&
   forallb (fun p => Bool.eqb (als x (fst (fst p)) (snd (fst p))) (snd p)) (o_als o).
 
@@ -59,7 +60,8 @@ Fixpoint vflags (mx : Z) (t0 : store) (p : prog) (r : rstate) {struct p} : list 
              match q with
              | OTouch a => XTouch (zone && negb (rs (r_get r a))) :: go t r zone
              | PPrecompile _ fails =>
-                 go t (rrun mx q r) (negb fails && negb (mx <? r_calls r + 1))
+                 go t (rrun mx q r) (negb fails && negb (mx <? r_calls r + 1) &&
+                                     negb (r_pending (r_with_calls r (r_calls r + 1))))
              | _ => vflags mx t0 q r ++ go t (rrun mx q r) false
              end
          end) body r false
@@ -89,17 +91,17 @@ Fixpoint views_ok (fl : list expect) (vs : list obs) : bool :=
   end.
 
 (** the property of one observed script run *)
-Definition P (mx : Z) (t0 : store) (body : list prog) (o : observed) : Prop :=
-  let r := rrun mx (PFrame body false) (r_init t0) in
+Definition P (mx : Z) (bl : list addr) (t0 : store) (body : list prog) (o : observed) : Prop :=
+  let r := rrun mx (PFrame body false) (r_init bl t0) in
   final_matches (r_final r) (r_aux r) o = true /\
-  let fl := vflags mx t0 (PFrame body false) (r_init t0) in
+  let fl := vflags mx t0 (PFrame body false) (r_init bl t0) in
   length fl = length (o_views o) /\
   forall i f v, nth_error fl i = Some f -> nth_error (o_views o) i = Some v -> view_P f v.
 
-Definition Pb (mx : Z) (t0 : store) (body : list prog) (o : observed) : bool :=
-  let r := rrun mx (PFrame body false) (r_init t0) in
+Definition Pb (mx : Z) (bl : list addr) (t0 : store) (body : list prog) (o : observed) : bool :=
+  let r := rrun mx (PFrame body false) (r_init bl t0) in
   final_matches (r_final r) (r_aux r) o &&
-  views_ok (vflags mx t0 (PFrame body false) (r_init t0)) (o_views o).
+  views_ok (vflags mx t0 (PFrame body false) (r_init bl t0)) (o_views o).
 
 Lemma views_ok_len fl vs : views_ok fl vs = true -> length fl = length vs.
 Proof.
@@ -127,7 +129,7 @@ Proof.
     + eapply IH; eauto.
 Qed.
 
-Lemma Pb_sound mx t0 body o : Pb mx t0 body o = true -> P mx t0 body o.
+Lemma Pb_sound mx bl t0 body o : Pb mx bl t0 body o = true -> P mx bl t0 body o.
 Proof.
   unfold Pb, P. intro H. apply andb_true_iff in H as [H1 H2].
   split; [exact H1|]. split.
